@@ -163,7 +163,7 @@ def record(history, result, res):
                    or '\\item' in h[1] or '\\begin{eenv}' in h[1]) for h in history)
     if shared and touches and len(history) >= 2:
         res.nontriv(history)
-        res.label('non-trivial')
+        res.label('non-trivial', case)
     if len(set((h[0], h[1]) for h in history)) < len(history):
         res.label('same-document-repeated')
     strict_after_error = False
